@@ -204,26 +204,29 @@ def converge_minimise(ctx, case, verdict, budget=10):
     return best, best_v
 
 
-def run_converge(ctx, n):
+def run_converge(ctx, n, sweep=False):
+    """sweep=False: corpus + n random histories. sweep=True: every single-change history of the grammar (targeted search
+    when a tie is broken; part of the thorough tier)."""
     import verif as V
+    name = "converge-sweep" if sweep else "converge"
     st = {"cases": 0, "ops": 0, "agree": True}
-    ctx.streams["converge"] = st
+    ctx.streams[name] = st
     case_list = []
     cdir = os.path.join(V.HARNESS, "corpus", ctx.pid)
-    if os.path.isdir(cdir):
+    if os.path.isdir(cdir) and not sweep:
         for f in sorted(os.listdir(cdir)):
             if f.startswith("converge.") and f.endswith(".ops"):
                 case_list += split_cases(ctx.read_lines(os.path.join(cdir, f)))
     ncorpus = len(case_list)
-    g = os.path.join(ctx.work, "converge.gen.ops")
+    g = os.path.join(ctx.work, "%s.gen.ops" % name)
     if os.path.exists(g):
         os.remove(g)
-    rc, log = ctx.harness("gen", "converge", ctx.seed, n, g)
+    rc, log = ctx.harness("gen", name, ctx.seed, n, g)
     if rc != 0 or not os.path.exists(g):
         ctx.tie_broken("harness-gen:converge", log)
         return
     case_list += split_cases(ctx.read_lines(g))
-    verdicts, log = converge_verdicts(ctx, case_list, "run")
+    verdicts, log = converge_verdicts(ctx, case_list, "sweep" if sweep else "run")
     if verdicts is None:
         ctx.tie_broken("stream-run:converge", "the converge oracle did not complete:\n" + log[-3000:])
         st["agree"] = False
@@ -273,10 +276,10 @@ def run_converge(ctx, n):
                           + small_v.split(" ||")[0][:300],
                           {"stream": "converge", "ops": small, "oracle_verdict": small_v[:6000], "original_case": c,
                            "original_verdict": v[:3000]}, True)
-    ctx.counters["converge.type-pushes"] = pushed
-    ctx.counters["converge.type-skips"] = skipped
-    ctx.log("stream converge: %d histories (%d corpus), %d (proxy,type) pushes and %d skips observed, %s"
-            % (st["cases"], ncorpus, pushed, skipped, "all converged" if st["agree"] else "DIFFERENCES"))
+    ctx.counters["%s.type-pushes" % name] = pushed
+    ctx.counters["%s.type-skips" % name] = skipped
+    ctx.log("stream %s: %d histories (%d corpus), %d (proxy,type) pushes and %d skips observed, %s"
+            % (name, st["cases"], ncorpus, pushed, skipped, "all converged" if st["agree"] else "DIFFERENCES"))
 
 
 # Findings of this check that are not fixed in /repo (see notes/C01.md). The coordinator records them in
@@ -324,6 +327,11 @@ def run(ctx):
     n = ctx.n(3000, 60000)
     ctx.diff_stream("needs", n, oracle=oracle)
     run_converge(ctx, ctx.n(40, 1500))
+    tie_broken = (not proved) or not ctx.streams.get("needs", {}).get("agree", True)
+    found = any(v["found"] and v["fingerprint"].startswith("converge") for v in ctx.violations)
+    if (tie_broken and not found) or not ctx.quick():
+        # targeted search for a failing input (DESIGN "On break"): every single-change history of the grammar
+        run_converge(ctx, 0, sweep=True)
     if not proved and not ctx.violations:
         # a proof (e.g. a table tie) broke while the stream still agrees: property-level search
         g = os.path.join(ctx.work, "needs.gen.ops")
